@@ -145,7 +145,8 @@ def run(res):
     specs = [dict(seed=res.seed, idx=i, max_patches=(18 if quick else 34)) for i in range(10 if quick else 120)]
     for r in fw.run_parallel(scene_case, specs):
         res.absorb(r)
-    res.absorb(wrap_witness({}))
+    for r in fw.run_parallel(wrap_witness, [{}]):
+        res.absorb(r)
     res.rule = ("shoebox scenes (some translated), 1-4 receivers inside and outside the room, single- and "
                 "multi-direction tables, direct sound on, mostly windows holding every arrival and every 5th case a "
                 "short window; non-trivial = at least two receivers or a hidden/back-facing patch")
@@ -157,6 +158,6 @@ def replay(res, payload):
     for f in payload.get("failures", []) + payload.get("correspondence", []):
         case = f.get("case", {})
         if case.get("witness"):
-            res.absorb(wrap_witness({}))
+                res.absorb(wrap_witness({}))
         else:
             res.absorb(scene_case(dict(seed=case["seed"], idx=case["idx"], max_patches=34)))
